@@ -21,7 +21,9 @@ def cost_table():
     return '\n'.join(rows)
 
 
-base = base.replace('@@AS_BUILT@@', open(os.path.join(T, 'as_built_0.md')).read().rstrip().replace('@@COST_TABLE@@', cost_table()))
+_thor_p = os.path.join(T, 'thorough_results.md')
+_thor = open(_thor_p).read().strip() if os.path.exists(_thor_p) else '(not recorded)'
+base = base.replace('@@AS_BUILT@@', open(os.path.join(T, 'as_built_0.md')).read().rstrip().replace('@@COST_TABLE@@', cost_table()).replace('@@THOROUGH@@', _thor))
 # per-property as-built paragraphs
 props = {}
 cur = None
